@@ -92,3 +92,34 @@ extern "C" void h_checkpow()
     VREACH("end");
 }
 
+
+// (1c) compact rounding is monotone: for all 256-bit x <= y, SetCompact(GetCompact(x)) <= SetCompact(GetCompact(y)), and clamping to powLimit
+//      first keeps the order. Together with `retarget` (required bits = compact(min(q, L))) and `permitted` (accepted iff
+//      round(min(q_lo, L)) <= target(new) <= round(min(q_hi, L)) with q_lo = floor(old*(T/4)/T), q_hi = floor(old*4T/T)) and the monotonicity of
+//      floor(old*ts/T) in ts, this yields: every required difficulty is accepted by PermittedDifficultyTransition (checked directly, on the real
+//      code, by the thorough-tier harness retarget_permits).
+extern "C" void h_rounding_monotone()
+{
+    const Consensus::Params p = make_params();
+    uint8_t xb[32], yb[32], lim[32];
+    uint256 ux, uy;
+    for (int i = 0; i < 32; i++) { xb[i] = nondet_u8(); yb[i] = nondet_u8(); ux.data()[i] = xb[i]; uy.data()[i] = yb[i]; }
+    VASSUME(ref_cmp256(xb, yb) <= 0);
+    limit_bytes(lim);
+    const arith_uint256 L = UintToArith256(p.powLimit);
+    arith_uint256 x = UintToArith256(ux), y = UintToArith256(uy);
+    VASSERT(x <= y, "arith_uint256 comparison agrees with the big-endian byte order");
+    if (x > L) x = L;
+    if (y > L) y = L;
+    VASSERT(x <= y, "clamping to powLimit keeps the order");
+    arith_uint256 rx, ry;
+    rx.SetCompact(x.GetCompact());
+    ry.SetCompact(y.GetCompact());
+    verif_observe(rx.GetLow64()); verif_observe(ry.GetLow64());
+    VASSERT(rx <= ry, "compact rounding (SetCompact o GetCompact) is monotone");
+    VASSERT(rx <= x && ry <= y, "compact rounding never rounds up");
+    VWITNESS(rx == ry && !(x == y), "distinct values round to the same compact target");
+    VWITNESS(!(rx == ry), "distinct rounded values");
+    VWITNESS(y == L && ref_cmp256(yb, lim) > 0, "clamped");
+    VREACH("end");
+}
